@@ -47,6 +47,12 @@ def stepF (_ : Unit) (w : List String) : Option (Unit × String × List String) 
     let s4 := (BB.Buffer.commit s3 0).1
     let s5 := (BB.Buffer.cleanFixed s4 4 4).1
     some ((), s!"size={BB.Buffer.size s5}", ["commit_behind_the_head_after_forced_trim"])
+  | ["fixednocons", _, _] =>
+    -- the forced trim needs no consumer: in the L1 model, 45 single Puts into a buffer without registered consumers, the fixed
+    -- cleaner (max 10, target 4) evaluated after the last one (C04: every change is followed by an evaluation) leaves ≤ 10
+    let s1 := (List.range 45).foldl (fun s i => (BB.Buffer.put s [100 + i]).1) BB.Buffer.init
+    let s2 := (BB.Buffer.cleanFixed s1 10 4).1
+    some ((), s!"size_le_max={decide (BB.Buffer.size s2 ≤ 10)}", ["forced_trim_without_consumers"])
   | ["busy", _] =>
     -- BB.Props.C04 (pending_evaluation / at_most_one_expiry): a change recorded during a cooldown is evaluated at its expiry, whether
     -- or not further changes keep arriving; five cooldowns of uninterrupted activity therefore see at least two cleanups
